@@ -56,7 +56,7 @@ var prelude = []string{
 }
 
 func (w *World) newEnc(fn *ssa.Function, c *FuncContract) *Enc {
-	e := &Enc{w: w, s: NewScript(), compSort: map[string]string{}, notesSet: map[string]bool{}, strIDs: map[string]int{},
+	e := &Enc{flt: map[string]fltRec{}, w: w, s: NewScript(), compSort: map[string]string{}, notesSet: map[string]bool{}, strIDs: map[string]int{},
 		oblCount: map[string]int{}, callOrd: map[string]int{}}
 	e.s.Axioms = append(e.s.Axioms, prelude...)
 	e.fnKey = funcKey(fn)
